@@ -86,6 +86,7 @@ type SeqRun struct {
 	fcases   map[int]frameCase
 	dcases   map[int]bool
 	stepShards []string
+	chists     map[int]string
 	ncases     map[int]*ncaseRef
 	Notes      []string
 	shards   []string
